@@ -482,6 +482,24 @@ class Machine:
     def ns_hyp_capable(self):
         return self.virt_ext() and self.sec_ext()
 
+    def take_reset(self):
+        self.setfield('cpsr', 4, 0, MODES['svc'])
+        if self.sec_ext():
+            self.setbit('scr', 0, 0)
+        # ResetControlRegisters(): IMPLEMENTATION DEFINED; the configuration file gives reset values, VBAR is re-initialised
+        rv = self.cfg.get('reset_values', {}).get('VBAR')
+        self.s['vbar'] = int(rv, 0) if rv else 0
+        for bit in (7, 6, 8):
+            self.setbit('cpsr', bit, 1)
+        self.set_itstate(0)
+        self.setbit('cpsr', 24, 0)
+        te = (self.s['sctlr'] >> 30) & 1
+        self.setbit('cpsr', 5, te)
+        self.thumb = bool(te)
+        self.setbit('cpsr', 9, (self.s['sctlr'] >> 25) & 1)
+        vec = self.cfg['impdef_reset_vector'] if self.cfg.get('has_imp_def_reset_vector') else self.exc_vector_base()
+        self.branch_to(vec & ~1)
+
     def take_undef(self):
         instr = self.s['R.PC']
         lr = (instr + (2 if self.thumb else 4)) & M32
